@@ -11,7 +11,8 @@ RULE = (
     "location; flags enumerated completely over fixed size templates, sizes/coordinates/flags also drawn by "
     "Hypothesis); non-trivial = at least 2 non-degenerate axes and at least one non-default layout flag. "
     "history: sequences of property reads, copies and data_location assignments; non-trivial = a shape/size/"
-    "points read happens before a later effective location change. large_enum: uniform/rectilinear/ESRI grids "
+    "points read happens before a later effective location change. axis_types_enum: rectilinear axes given as "
+    "float32 / int arrays, lists, tuples at coordinates of millions of metres. large_enum: uniform/rectilinear/ESRI grids "
     "and mixed tri/quad unstructured grids with 2^15..2^17+ cells (sizes on both sides of 2^16 and 2^17), judged "
     "vectorised against the same reference. distinct = distinct canonical JSON."
 )
@@ -284,6 +285,24 @@ def check_large(cfg, ctx):
         ctx.violation("large-unstructured-data_points", f"data points of the unstructured cast differ from reference for {_short(cfg)}")
 
 
+def enum_dtypes(tier):
+    """rectilinear axes handed over as float32 / integer arrays, lists or tuples, with coordinates that are exactly
+    representable in that type but whose cell midpoints are not (projected coordinates of millions of metres)"""
+    axsets = [
+        [[32500000.0, 32500002.0, 32500004.0, 32500008.0]],
+        [[5600000.0, 5600000.5, 5600001.0, 5600002.0], [32500008.0, 32500004.0, 32500000.0]],
+        [[0.0, 1.0, 3.0, 4.0], [10.0, 7.0, 6.0]],
+        [[0.0, 1.0, 3.0], [16777216.0, 16777218.0, 16777222.0], [1.0, 2.0]],
+    ]
+    for axes in axsets:
+        for dt in ("float32", "int64", "int32", "list", "tuple", "float64"):
+            if dt.startswith("int") and any(x != int(x) for a in axes for x in a):
+                continue
+            for order, rev in (("F", False), ("C", True)):
+                for loc in ("CELLS", "POINTS"):
+                    yield {"cls": "rect", "axes": axes, "order": order, "rev": rev, "loc": loc, "axdtype": dt}
+
+
 def _short(cfg):
     return {k: (v if not isinstance(v, list) or len(v) < 8 else f"<{len(v)} values>") for k, v in cfg.items()}
 
@@ -313,6 +332,7 @@ def parts():
     return [
         Part("layouts_enum", check_layout, enumerate=lambda tier: hg.enum_layouts(), exhaustive=True),
         Part("layouts_gen", check_layout, strategy=hg.grid_cfg(), strategy_thorough=hg.grid_cfg(max_len=6), budget={"quick": 3000, "thorough": 60000}),
+        Part("axis_types_enum", check_layout, enumerate=enum_dtypes, exhaustive=True),
         Part("large_enum", check_large, enumerate=enum_large, exhaustive=True),
         Part("history", check_history, strategy=history_st, budget={"quick": 3000, "thorough": 60000}),
     ]
